@@ -127,7 +127,7 @@ register(
     level="proof",
     streams=["fp", "edf", "fifo", "ros_e19", "ros_rr", "ros_bw", "arrival"],
     falsifier=fals_analyses.falsify_C17,
-    partial=["proved for FIFO, the four FP and the four EDF analyses (through C06: the analyses equal naive evaluation, which is monotone) and for the ROS 2 event-source, rr and bw analyses incl. weaker supplies (through C07; rr/bw for an end-of-chain callback with a non-shrinking marginal cost, i.e. any scalar WCET); for the ROS 2 timer / polling-point analyses proved for harder interference, blocking and supply with the analysed callback's own model FIXED (their search space is pruned to the own steps, K2) — hardening the own model and the processing-chain analysis are explored by the falsifier, not theorems",
+    partial=["proved for FIFO, the four FP and the four EDF analyses (through C06: the analyses equal naive evaluation, which is monotone) and for the ROS 2 event-source, rr and bw analyses incl. weaker supplies (through C07; rr/bw for an end-of-chain callback with a non-shrinking marginal cost, i.e. any scalar WCET); for the ROS 2 timer / polling-point analyses proved for harder interference, blocking and supply with the analysed callback's own model FIXED (their search space is pruned to the own steps, K2) — the processing-chain analysis likewise (ros_chain_monotone_partial: longer prefix, more demand of other chains, weaker supply); hardening the analysed callback's / chain's OWN arrival model or last WCET is explored by the falsifier, not a theorem",
              "the analysed task's OWN last non-preemptive segment is not a hardening (own_last_segment_not_monotone) and is excluded"],
     explanation="order-preservation of least solutions and maxima: pointwise larger right-hand sides give larger least fixed points and larger busy windows; the single-parameter hardenings (WCET, jitter, period, blocking, segment, added task) are proved to produce the pointwise orders; limit stability proved.",
 )
@@ -202,7 +202,7 @@ register(
     level="proof",
     streams=["ros_e19", "supply", "fixed_point", "steps"],
     falsifier=_with_oracle_validation(fals_ros.falsify_C04),
-    partial=["PROVED for every supply process delivering at least the supply-bound function (every compliant budget placement of a periodic / deadline-constrained reservation), every release pattern within the curves, every execution time up to the WCET: the event-source analysis (all FIFO schedules), the timer analysis, the polling-point-callback analysis and the processing-chain analysis (scalar WCETs of the analysed callback / chain) over the schedule-level executor Spec SupplyTimerLegal (non-preemptive, no idling while a relevant instance is pending, no other callback started meanwhile, own instances in release order; chains: every callback instance carries the arrival time of its chain instance). Timer and polling-point analyses ALSO for every run of the executor transition system itself (executor_runs_are_timer_legal, timer_safe_lts, polling_point_safe_lts). NOT proved: that runs of the transition system WITH chains satisfy the schedule-level Spec used by chain_safe — checked by executing the executor model on every run (check_timer_legal)"],
+    partial=["PROVED for every supply process delivering at least the supply-bound function (every compliant budget placement of a periodic / deadline-constrained reservation), every release pattern within the curves, every execution time up to the WCET: the event-source analysis (all FIFO schedules), the timer analysis, the polling-point-callback analysis and the processing-chain analysis (scalar WCETs of the analysed callback / chain) over the schedule-level executor Spec SupplyTimerLegal (non-preemptive, no idling while a relevant instance is pending, no other callback started meanwhile, own instances in release order; chains: every callback instance carries the arrival time of its chain instance). Timer, polling-point and chain analyses ALSO for every run of the executor transition system itself (executor_runs_are_timer_legal, executor_runs_are_chain_legal; timer_safe_lts, polling_point_safe_lts, chain_safe_lts). Remaining restrictions: scalar WCETs of the analysed callback / chain; one linear chain per run in the chain refinement"],
     explanation="busy-window proofs on an arbitrary supply process whose service in every window is bounded below by the supply-bound function (C09 soundness): FIFO for the event source; non-preemptive fixed priority with bounded blocking, interference counted up to the start of the instance, for timers; polling-point callbacks as the special case where every other callback interferes and nothing blocks; composed with the meaning of Ok(R) (C07: analyses = naive evaluation on the step offsets). Executor model specified in Lean, executed by the falsifier, its runs checked against the schedule-level Spec.",
 )
 
